@@ -176,6 +176,7 @@ func init() {
 	}
 	RegisterOp("simreply", simreply)
 	RegisterOp("simreplym", simreply)
+	RegisterOp("simreplyf", simreply) // input class of finding C20/expected-reply-fragment
 	// simdump: the default bodies as a Coq table (used once to write Model/Sim.v default_bodies)
 	RegisterOp("simdump", func(a []string) string {
 		var sb strings.Builder
@@ -742,5 +743,34 @@ func c20(c *Ctx) {
 				req, Hx(exp), Hx(res.Frames[0]))
 		}
 		c.Count("malformed 0x1212")
+		// (c) a frame with the fragment bit that is not the whole message (known finding C20/expected-reply-fragment):
+		// packet 1 of n >= 2 of a reply-bearing command, built by the harness (the simulator never generates one).
+		// The live server answers nothing for it; the simulator predicts a reply.  A repaired ExpectedReply (nil) is
+		// accepted as well.
+		{
+			fver := 1 + g.rng.Intn(3)
+			fphone := g.digits(1 + g.rng.Intn(12))
+			cmd := []uint16{0x0200, 0x0704, 0x0002, 0x0100, 0x1210}[g.rng.Intn(5)]
+			pk := RpFrame{ID: cmd, Serial: uint16(g.rng.Intn(65536)), BCD: bcdOf(padPhone(fver, fphone)), Frag: true,
+				Sum: uint16(2 + g.rng.Intn(3)), No: 1, Body: g.rbytes(1 + g.rng.Intn(30))}
+			if fver == 3 {
+				pk.Ver = 1
+			}
+			w := pk.Wire()
+			freq := fmt.Sprintf("simreplyf %d %s 0 %s", fver, fphone, Hx(w))
+			fans := c.Do(freq, true)
+			t := newTerm(fver, fphone)
+			hb := t.CreateDefaultCommandData(0x0002)
+			fres := play([][]byte{hb, w})
+			c.Eval("live fragment "+freq, true)
+			if fres.Timeout != "" || len(fres.Frames) != 2 {
+				viol("live-count", "the live server answered a lone packet of a sub-packaged message (or not the heartbeat before it)", freq,
+					fmt.Sprintf("%d frames timeout=%s", len(fres.Frames), fres.Timeout), "2 frames (heartbeat reply, barrier reply)")
+			} else if fans != "ok r=nil" {
+				viol("expected-reply-fragment", "ExpectedReply predicts a reply for a frame with the fragment bit that is not the whole message; the server answers nothing until the transfer is complete",
+					freq, fans, "ok r=nil (nothing is sent for it)")
+			}
+			c.Count("fragment frame handed to ExpectedReply")
+		}
 	}
 }
